@@ -6,7 +6,7 @@ PID = "C14"
 MODEL_DEPS = ["C13_Model.v"]
 RULE = ("non-trivial = a call on an anisotropic offset region (widths differing by > 10x or a lower corner away from the origin) in >= 2 dimensions, "
         "or an observed call preceded by >= 2 calls of different dimension, or by a history that contains an integration brought to an end by its integrand, "
-        "or an observed call made at least twice from inside the integrand of an integration under way, or an observed call preceded by uses of the sampling facility "
+        "or an observed call made at least twice from inside the integrand of an integration under way (through Integrate_MC or the 2-D/3-D front ends), or an observed call preceded by uses of the sampling facility "
         "(Sample_Uniform with limits of the caller's) the integrators draw from; distinct by case text")
 LEVEL_TEXT = ("Theorems (Coq, all inputs, over the reals, for every uniform stream with values in [0,1)): Random_Point stays in the hyper-rectangle; plain Monte Carlo and Miser "
               "evaluate the integrand only at points of the region (Miser's sub-regions are nested) and integrate a constant c to exactly V*c; the result of every integrator is a "
@@ -20,6 +20,13 @@ LEVEL_TEXT = ("Theorems (Coq, all inputs, over the reals, for every uniform stre
               "refinements), and the whole call Integrate_MC(..., \"Vegas\") from whatever statics, in 1..10 dimensions with budgets >= 2, looks at the integrand only inside the region "
               "(C14_vegas_points_inside: the initialisation with init = 0 establishes the invariant: uniform grid, nd in 2..50, ng >= 1); "
               "the 2-D/3-D front ends build the region {x1,y1,(z1),x2,y2,(z2)} and pass args[0],args[1],(args[2]). "
+              "End to end through the front ends with the method Monte-Carlo, on top of this model's Integrate_MC started from any statics (C14_front_2d_plain_mc_points_inside, "
+              "C14_front_3d_plain_mc_points_inside, C14_front_plain_mc_constant_exact): Integrate_2D / Integrate_3D look at the integrand only inside the rectangle spanned by the limits, in any "
+              "order, and integrate a constant to (x2-x1)(y2-y1)(z2-z1) c for every stream and budget p >= 0; Miser and Vegas through the front ends are not restated end to end (region layout + "
+              "the theorems on Integrate_MC). In the model a region and a sample point are values built afresh by each call, so nothing a call made from the integrand does can change them; that the "
+              "implementation keeps no region or point buffer between calls is TESTED only (cases nestx: an integration made from the integrand of another one, before or after that integrand reads "
+              "its own point, either call through Integrate_MC or through Integrate_2D/_3D, same front end inside itself, over different rectangles, every pair of methods but Vegas in Vegas; the outer "
+              "call is judged by points-inside / budget / constants exact / six standard errors on value divided by the inner value, the inner call against its fresh-process value and its limits). "
               "NOT theorems: 'within six standard errors' (probabilistic); Vegas' exactness on constants (on the uniform grid of the first iteration every weight equals the Jacobian, "
               "later iterations run on a refined grid whose bins and strata do not coincide: exact to rounding only, see K-C14-1) — these are evaluated on the implementation with fixed "
               "seeds (S4); over the reals pow(x, 1.5) is exp(1.5 ln x) > 0, so the theorems on the refinement do not speak about weights that are 0 or NaN in doubles. The Gallina model (all three integrators in full, including Vegas' five iterations with "
@@ -624,6 +631,27 @@ def generate(rng, tier):
                     texts = [call_text(om, rng.randrange(2 ** 32), no, region, rand_fam(rng, d, rng.choice(["const", "sepexp", "gauss", "poly"]))),
                              call_text(im, rng.randrange(2 ** 32), ni, iregion, rand_fam(rng, di, rng.choice(["const", "sepexp", "gauss", "poly"])))]
                     cs.append(Case(f"nested {shared} " + " ".join(texts), ("nested", im, "outer-" + om) + (("shared-region-object",) if shared else ())))
+    # ... in general: the inner call is made BEFORE the integrand of the outer call reads the point it was handed, or after; either call goes through Integrate_MC or
+    # through the 2-D / 3-D front ends (same front end inside itself, 2-D inside 3-D, front end inside Integrate_MC, ...), over DIFFERENT rectangles; every pair of
+    # methods (except Vegas inside Vegas); the outer call is judged by the clauses of a single call (points inside its own rectangle, budget, constants exact: its
+    # integrand is its expression times the constant value of the inner call; six standard errors for budgets >= 1000), the inner one against its fresh-process value
+    for rep in range(4 if big else 1):
+        for om in MC:
+            for im in MC:
+                if om == im == "Vegas": continue
+                for oe, ie in (("mc", "mc"), ("fe", "fe"), ("mc", "fe"), ("fe", "mc")):
+                    for first in (1, 0):
+                        d = rng.choice([2, 3]) if oe == "fe" else rng.randint(1, 4)
+                        di = (d if (oe == "fe" and rng.random() < 0.7) else rng.choice([2, 3])) if ie == "fe" else rng.randint(1, 4)
+                        region = rand_region(rng, d, rev=0.15); iregion = rand_region(rng, di, rev=0.15)
+                        no = rng.choice([60, 80, 100, 60, 80, 100, 1000] if not big else [60, 120, 1000, 1500]) if om != "Vegas" else rng.choice([20, 40, 60] + ([1000] if big else []))
+                        if big and rng.random() < 0.3: no = structured_budget(rng, 1000, 4000, d)
+                        ni = rng.choice([30, 60] if not big else [100, 200]) if no >= 1000 else (rng.choice([100, 200, 300] if big else [60, 100, 150]) if im != "Vegas" else rng.choice([60, 100, 200] if big else [40, 60, 100]))
+                        fo = rand_fam(rng, d, rng.choice(["const", "const", "sepexp", "gauss", "poly"]))
+                        fi = rand_fam(rng, di, rng.choice(["const", "const", "sepexp", "gauss", "poly"]))
+                        texts = [call_text(om, rng.randrange(2 ** 32), no, region, fo), call_text(im, rng.randrange(2 ** 32), ni, iregion, fi)]
+                        cs.append(Case(f"nestx {first} {oe} {ie} " + " ".join(texts) + obs_ann(om, no, region, fo),
+                                       ("nestx", im, "outer-" + om, f"outer-{oe}-inner-{ie}", "inner-first" if first else "inner-last")))
     # the 2-D / 3-D front ends (and the spherical one of Integrate_3D): every way in which a limit of one axis can be the same number as a limit of
     # another axis (x1 = y1, x2 = y1, ..., y2 = z1, ...; adjacent intervals, cubes), ascending and descending limits; no axis has zero width
     for rep in range(3 if big else 1):
@@ -724,11 +752,16 @@ def nontrivial(c, io):
     if op == "nested":
         t = io.split()
         return len(t) == 6 and t[2].isdigit() and int(t[2]) >= 2
+    if op == "nestx":
+        t = io.split()
+        return len(t) >= 9 and t[2].isdigit() and int(t[2]) >= 2
     return False
 
 
 # ---------------------------------------------------------------- S4
-def check_call(op, method, ncall, d, region, fex, fam, v, out, ended_early=False, six_sigma=True):
+def check_call(op, method, ncall, d, region, fex, fam, v, out, ended_early=False, six_sigma=True, scale=1.0):
+    """scale: the value v[0] and the family describe the integrand divided by this constant factor (nestx: the value of the inner call); the size of what Vegas
+    actually accumulated, which decides whether K-C14-1 applies, is scale times larger"""
     val, neval = v[0], v[1]; mm = v[3:]
     # evaluation points inside the hyper-rectangle
     if op == "front3s":
@@ -769,7 +802,7 @@ def check_call(op, method, ncall, d, region, fex, fam, v, out, ended_early=False
             # (what K-C14-1 describes is a wrong weighting of iterations each of which is an estimate of volume*constant on a grid refined to noise: the result
             # stays within the sampling noise of such an iteration, observed up to 2e-3 relative at 1500 calls; a result that is not even of the right size
             # or sign, e.g. 0, is not that finding)
-            region_tag = ":vegas-tiny-scale" if (method == "Vegas" and abs(ex) / max(neval, ncall, 1) < 1e-6 and abs(val - ex) <= 0.25 * abs(ex)) else ""
+            region_tag = ":vegas-tiny-scale" if (method == "Vegas" and abs(ex * scale) / max(neval, ncall, 1) < 1e-6 and abs(val - ex) <= 0.25 * abs(ex)) else ""
             out.append((f"{op}:constant-exact{region_tag}", f"{method}: constant integrand, result {val!r}, volume*constant = {ex!r} (error {abs(val-ex):.3g} > {slack:.3g})"))
     elif fam.kind == "corner":
         # (non-negative integrand: the sign of the result is that of the oriented volume)
@@ -856,6 +889,35 @@ def predicates(c, io):
             v = parse_vals(" ".join([b] + t[6:]))
             if isinstance(v[0], float) and len(v) == 3 + 2 * d:
                 check_call("hist", method, ncall, d, region, fam.text(region), fam, v, out, six_sigma=(ncall >= 1000))
+    elif op == "nestx":
+        if io.startswith("EXIT"): return [("nestx:exit", "a valid integration started from the integrand of another one terminated the process")]
+        t = io.split()
+        if len(t) < 9: return [("nestx:output", f"malformed harness output {io[:80]!r}")]
+        fresh, outer, ninner, ndiff, worst, nmod, nout = t[:7]
+        w = c.line.split(); first, oe, ie = w[1] == "1", w[2], w[3]
+        ent = {"mc": "Integrate_MC", "fe": "Integrate_2D/_3D"}
+        where = (f"from inside the integrand of another integration ({ent[ie]} inside {ent[oe]}, " + ("before" if first else "after") + " that integrand reads its own point)")
+        if ndiff != "0":
+            out.append(("nestx:history-dependence", f"same call, same seed: {fresh} in a fresh process but {worst} when made {where} ({ndiff} of {ninner} such calls differ)"))
+        if nmod != "0":
+            out.append(("nestx:caller-region-modified", f"{nmod} calls changed the limits in the region vector of their caller (during the call or for good)"))
+        if nout != "0":
+            out.append(("nestx:inner-points-inside", f"the evaluation points of the integration made {where} left its limits on {nout} axes"))
+        body, _, ann = c.line.partition(" # obs ")
+        if ann:
+            # the outer call: its integrand is its expression times the value of the inner call (a constant when no inner call differs)
+            h, _, fa = ann.partition(" ; ")
+            ht = h.split(); method, ncall, d = ht[0], int(ht[1]), int(ht[2])
+            region = [float.fromhex(x) for x in ht[3:3 + 2 * d]]; fam = parse_fam(fa.split())
+            v = parse_vals(" ".join([outer] + t[7:]))
+            I = tokf(fresh)
+            if I is None: I = math.nan
+            if isinstance(v[0], float) and len(v) == 3 + 2 * d:
+                ok_val = ndiff == "0" and math.isfinite(I) and I != 0.0
+                v[0] = v[0] / I if ok_val else v[0]
+                msgs = []
+                check_call("nestx", method, ncall, d, region, fam.text(region), fam if ok_val else None, v, msgs, six_sigma=(ncall >= 1000), scale=(I if ok_val else 1.0))
+                out += [(sg, f"outer call, with another integration made {where}, value divided by the inner call's: " + m) for sg, m in msgs]
     elif op == "nested":
         if io.startswith("EXIT"): return [("nested:exit", "a valid integration started from the integrand of another one terminated the process")]
         t = io.split()
